@@ -255,6 +255,39 @@ def run(ctx):
                   "with ex->program == NULL the code object comes from arrays[ORC_VAR_A2]",
                   "%s no longer takes the code object from arrays[ORC_VAR_A2] on the program-less path" % fn)
 
+    # ---- D5b: emulation takes the code object from the place that is current ----------------------
+    # With an attached program the code object is program->orccode (rewritten by every compile); the A2 slot is only a
+    # snapshot from orc_executor_set_program and is authoritative for code-only executors (ex->program == NULL) alone.
+    ee = db.func("orc_executor_emulate", "orcexecutor")
+    rep.saw(ee)
+    fce = Facts(ee)
+    a2v = db.enum("ORC_VAR_A2")
+    EX = ee.params[0]["name"]
+    defs = []
+    for n in ee.walk():
+        if n.k == "BinaryOperator" and n.op == "=" and strip_casts(n.c[0]).k == "DeclRefExpr" and (strip_casts(n.c[0]).get("ty") or "").replace(" ", "") == "OrcCode*":
+            defs.append((n, n.c[1]))
+        elif n.k == "VarDecl" and (n.get("ty") or "").replace(" ", "") == "OrcCode*" and n.c and n.c[0] is not None:
+            defs.append((n, n.c[0]))
+    if not defs:
+        raise AnalysisBroken("orc_executor_emulate: no definition of the code object found")
+    for st, rhs in defs:
+        r_ = strip_casts(rhs)
+        conds = [(access_path(x[0]), x[1]) for x in fce.conds(st) if x[0] != "switch"]
+        from_slot = any(y.k == "ArraySubscriptExpr" and (access_path(y.c[0]) or "").endswith("->arrays") and strip_casts(y.c[1]).v == a2v for y in r_.walk())
+        from_prog = (access_path(r_) or "").endswith("->program->orccode")
+        if from_slot:
+            ok = ("%s->program" % EX, False) in conds
+            why = "the A2 snapshot is used although a program may be attached (its orccode is the current one; A2 may be NULL or stale after a recompile)"
+        elif from_prog:
+            ok = ("%s->program" % EX, True) in conds
+            why = "ex->program->orccode is read without ex->program being known non-NULL"
+        else:
+            ok, why = False, "the code object comes from `%s`" % unparse(r_)[:50]
+        rep.check(ok, "D5-DISPATCH-ONCE", where(ee), "emulate:code-source:%s" % ("A2" if from_slot else "program" if from_prog else "other"),
+                  "emulation reads the code object from %s under the matching program test" % ("arrays[A2]" if from_slot else "program->orccode"),
+                  "orc_executor_emulate: %s" % why, line=st.line)
+
     # ---- D6: the fallback installed by the compile driver is a real function ---------------------
     from rules_common import check_code_exec_nonnull
     check_code_exec_nonnull(db, rep, "D6-FALLBACK-NONNULL")
